@@ -56,7 +56,7 @@ func (p *prop) Run(line string) core.Outcome {
 	}
 	f := strings.Split(line, " ")
 	switch f[0] {
-	case "adapt", "madapt", "perm", "eqv", "leak", "site", "hist", "argidx", "bind", "rename", "sopts", "lnp", "hp", "dbind", "nr", "kbind":
+	case "adapt", "madapt", "perm", "eqv", "leak", "site", "hist", "argidx", "bind", "rename", "sopts", "lnp", "hp", "dbind", "nr", "kbind", "nmeq":
 		// cases that run the adapter can die of a fatal (unrecoverable) Go error
 		switch noteCase(line) {
 		case "crash":
@@ -153,6 +153,14 @@ func (p *prop) Run(line string) core.Outcome {
 		if len(f) == 3 {
 			if t, err := core.UnHex(f[1]); err == nil {
 				return runPerm(line, t, f[2])
+			}
+		}
+	case "nmeq":
+		if len(f) == 3 {
+			a, e1 := core.UnHex(f[1])
+			b, e2 := core.UnHex(f[2])
+			if e1 == nil && e2 == nil && core.Hex(a) == f[1] && core.Hex(b) == f[2] {
+				return runNmeq(line, a, b)
 			}
 		}
 	case "eqv":
